@@ -892,9 +892,92 @@ fn check_deep(depth: usize, hold: usize) -> Option<(String, String)> {
     }
 }
 
+
+// ---- many state types at once: the distinctness test of the multiple borrow must be exact for any set of types ----
+pub trait Wide: for<'a> CustomState<'a> + 'static {
+    const IX: u16;
+    fn new(v: u16) -> Self;
+    fn val(&mut self) -> &mut u16;
+}
+macro_rules! wide_types {
+    ($($name:ident = $ix:expr),*) => {
+        $(
+            #[derive(Tid)]
+            pub struct $name(pub u16);
+            impl CustomState<'_> for $name {}
+            impl Wide for $name {
+                const IX: u16 = $ix;
+                fn new(v: u16) -> Self { $name(v) }
+                fn val(&mut self) -> &mut u16 { &mut self.0 }
+            }
+        )*
+    };
+}
+wide_types!(W00 = 0, W01 = 1, W02 = 2, W03 = 3, W04 = 4, W05 = 5, W06 = 6, W07 = 7, W08 = 8, W09 = 9, W10 = 10, W11 = 11, W12 = 12, W13 = 13, W14 = 14, W15 = 15, W16 = 16, W17 = 17, W18 = 18, W19 = 19, W20 = 20, W21 = 21, W22 = 22, W23 = 23, W24 = 24, W25 = 25, W26 = 26, W27 = 27, W28 = 28, W29 = 29, W30 = 30, W31 = 31, W32 = 32, W33 = 33, W34 = 34, W35 = 35, W36 = 36, W37 = 37, W38 = 38, W39 = 39, W40 = 40, W41 = 41, W42 = 42, W43 = 43, W44 = 44, W45 = 45, W46 = 46, W47 = 47, W48 = 48, W49 = 49, W50 = 50, W51 = 51, W52 = 52, W53 = 53, W54 = 54, W55 = 55, W56 = 56, W57 = 57, W58 = 58, W59 = 59, W60 = 60, W61 = 61, W62 = 62, W63 = 63, W64 = 64, W65 = 65, W66 = 66, W67 = 67, W68 = 68, W69 = 69, W70 = 70, W71 = 71);
+macro_rules! each_wide {
+    ($f:ident, $arg:expr) => { each_wide!(@list $f, $arg; W00 W01 W02 W03 W04 W05 W06 W07 W08 W09 W10 W11 W12 W13 W14 W15 W16 W17 W18 W19 W20 W21 W22 W23 W24 W25 W26 W27 W28 W29 W30 W31 W32 W33 W34 W35 W36 W37 W38 W39 W40 W41 W42 W43 W44 W45 W46 W47 W48 W49 W50 W51 W52 W53 W54 W55 W56 W57 W58 W59 W60 W61 W62 W63 W64 W65 W66 W67 W68 W69 W70 W71) };
+    (@list $f:ident, $arg:expr; $($a:ident)*) => { $( $f::<$a>($arg); )* };
+}
+macro_rules! each_wide_pair {
+    ($f:ident, $arg:expr, $out:expr) => { each_wide_pair!(@outer $f, $arg, $out; [W00 W01 W02 W03 W04 W05 W06 W07 W08 W09 W10 W11 W12 W13 W14 W15 W16 W17 W18 W19 W20 W21 W22 W23 W24 W25 W26 W27 W28 W29 W30 W31 W32 W33 W34 W35 W36 W37 W38 W39 W40 W41 W42 W43 W44 W45 W46 W47 W48 W49 W50 W51 W52 W53 W54 W55 W56 W57 W58 W59 W60 W61 W62 W63 W64 W65 W66 W67 W68 W69 W70 W71]; [W00 W01 W02 W03 W04 W05 W06 W07 W08 W09 W10 W11 W12 W13 W14 W15 W16 W17 W18 W19 W20 W21 W22 W23 W24 W25 W26 W27 W28 W29 W30 W31 W32 W33 W34 W35 W36 W37 W38 W39 W40 W41 W42 W43 W44 W45 W46 W47 W48 W49 W50 W51 W52 W53 W54 W55 W56 W57 W58 W59 W60 W61 W62 W63 W64 W65 W66 W67 W68 W69 W70 W71]) };
+    (@outer $f:ident, $arg:expr, $out:expr; [$($a:ident)*]; $all:tt) => { $( each_wide_pair!(@inner $f, $arg, $out; $a; $all); )* };
+    (@inner $f:ident, $arg:expr, $out:expr; $a:ident; [$($b:ident)*]) => { $( $f::<$a, $b>($arg, $out); )* };
+}
+fn wide_insert<T: Wide>(reg: &mut StateRegistry) {
+    reg.insert(T::new(T::IX));
+}
+fn wide_insert_outer<T: Wide>(reg: &mut StateRegistry) {
+    reg.insert(T::new(1000 + T::IX));
+}
+fn wide_pair<X: Wide, Y: Wide>(reg: &mut StateRegistry, out: &mut Vec<(String, String)>) {
+    let same = X::IX == Y::IX;
+    let r = catch(std::panic::AssertUnwindSafe(|| match reg.try_get_multiple_mut::<(X, Y)>() {
+        Ok((x, y)) => {
+            if same {
+                Some("the same type borrowed twice exclusively".to_string())
+            } else if *x.val() != X::IX || *y.val() != Y::IX {
+                Some(format!("returned values {} and {}", x.val(), y.val()))
+            } else {
+                None
+            }
+        }
+        Err(e) => {
+            if same {
+                None
+            } else {
+                Some(format!("two different present types refused: {}", e))
+            }
+        }
+    }));
+    let w = match r {
+        Ok(None) => return,
+        Ok(Some(w)) => w,
+        Err(p) => format!("panicked: {}", p),
+    };
+    if out.len() < 4 {
+        out.push((
+            format!("C01 many-types multi pair {}", if same { "same-type-accepted" } else { "distinct-types-wrong" }),
+            format!("72 state types present; try_get_multiple_mut::<(W{:02}, W{:02})>(): {}", X::IX, Y::IX, w),
+        ));
+    }
+}
+/// 72 distinct state types in one registry (optionally each shadowing an outer instance): every ordered pair through the multiple borrow.
+fn check_many_types(shadow: bool) -> Vec<(String, String)> {
+    let mut out = Vec::new();
+    let mut reg = StateRegistry::new();
+    if shadow {
+        each_wide!(wide_insert_outer, &mut reg);
+        reg = reg.into_child();
+    }
+    each_wide!(wide_insert, &mut reg);
+    each_wide_pair!(wide_pair, &mut reg, &mut out);
+    out
+}
+
 pub fn run(rep: &mut Report) {
     rep.alpha("per type T in {A,B,C} (Deref<Target=u8>, values mod 3): insert, remove, take, contains, contains_at_top, find, find_mut, try_borrow/borrow, try_borrow_mut/borrow_mut + write, try_get_value/get_value, try_borrow_value(_mut)/borrow_value(_mut) + write, set_value, get_mut + write, entry().or_insert/or_insert_with/or_default/and_modify/and_modify_value, Entry::Occupied get/get_mut/into_mut/insert/remove, Entry::Vacant insert, try_get_multiple_mut::<(T,U)>, requirements().require, with_inner_state(Ok body)");
     rep.alpha("scope stacks of 1..300 (thorough: 1025) scopes with a type held in one scope only, every lookup flavour from the top");
+    rep.alpha("72 distinct state types in one scope (flat, and each shadowing an outer instance): try_get_multiple_mut over every ordered pair");
     rep.alpha("parent, parent_mut (write, insert), into_child (push scope), into_parent (pop scope, both halves inspected)");
     rep.assume("more than 3 types / 3 values / 3 scopes behave uniformly (the registry is a HashMap keyed by TypeId per scope and never inspects values)");
     rep.assume("no guard is alive between operations in this check (dynamic borrows are C02)");
@@ -929,6 +1012,19 @@ pub fn run(rep: &mut Report) {
             if let Some((sg, d)) = check_deep(depth, hold) {
                 p.violate(sg, d, json!({"deep": [depth, hold]}));
             }
+        }
+    }
+    rep.push(p);
+
+    let mut p = Part::new("registry.many-types");
+    p.bound("types", 72).bound("ordered_pairs", 72 * 72);
+    for shadow in [false, true] {
+        p.states += 1;
+        p.traces += 72 * 72;
+        p.transitions += 72 * 72;
+        p.outcome(if shadow { "shadowing" } else { "flat" });
+        for (sg, d) in check_many_types(shadow) {
+            p.violate(sg, d, json!({"many_types": shadow}));
         }
     }
     rep.push(p);
@@ -1014,6 +1110,9 @@ fn parse_op(v: &Value) -> Result<Op, String> {
 }
 
 pub fn replay(case: &Value) -> Result<Vec<(String, String)>, String> {
+    if let Some(b) = case["many_types"].as_bool() {
+        return Ok(check_many_types(b));
+    }
     if let Some(d) = case["deep"].as_array() {
         return Ok(check_deep(d[0].as_u64().unwrap_or(1) as usize, d[1].as_u64().unwrap_or(0) as usize).into_iter().collect());
     }
